@@ -224,7 +224,11 @@ def project(v, bits, start, ln, sign, fill):
 
 
 # ------------------------------------------------------------------------------ coder family
+known_keys = set()
+
+
 def run_coder(case, d, labels):
+    known_keys.clear()
     path = os.path.join(d, "c.hdf")
     data = build_data(case["segs"])
     n = len(data)
@@ -285,6 +289,11 @@ def run_coder(case, d, labels):
         d2 = build_data(case["rewrite"]["segs"])
         lw = p.call("i", "Hstartwrite", V("f"), TAG, REF, 0, bind="w")
         checks.append((lw, "start", None))
+        if case.get("read_before_rewrite"):
+            # directed probe of a known finding: read through the write AID first, then rewrite from 0
+            checks.append((p.call("i", "Hread", V("w"), n, Out(n + 8)), "read", (0, n, cur)))
+            checks.append((p.call("i", "Hseek", V("w"), 0, 0), "ret0", None))
+            known_keys.add("C05-skphuff-read-then-rewrite")
         checks.append((p.call("i", "Hwrite", V("w"), len(d2), d2), "retn", len(d2)))
         cur = d2
         for s in case["rewrite"]["appends"]:
@@ -618,9 +627,13 @@ def run_case(case):
             else:
                 run_bits(case, d, labels)
         except Fail as f:
+            f.info["known_keys"] = sorted(known_keys)
             return CaseResult(labels=labels, failure=f.info, sample=sample_of(case))
     return CaseResult(labels=labels, sample=sample_of(case))
 
 
 def known_match(case, failure, entry):
-    return False
+    # only the directed probe (read_before_rewrite) can carry the tag; the generator never mixes a read into
+    # a rewriting access
+    return bool(case.get("read_before_rewrite")) and case.get("coder") == SKPHUFF and \
+        entry["key"] in failure.get("known_keys", [])
